@@ -191,6 +191,14 @@ svc = service("UniversalService", [
         arg("first", S, "path"),
     ], returns=S),
     # exactly one query argument (its wire id differs from its name)
+    # safe collections next to a non-safe argument in one query string (pairs of one key need not
+    # be neighbours)
+    endpoint("safeList", "GET", "/u/safelist", [
+        arg("safeTags", st(S), "query", "tag", safety="SAFE"),
+        arg("secretWord", S, "query", "secret"),
+        arg("safeIds", lst(S), "query", "id", safety="SAFE"),
+    ]),
+    endpoint("enumList", "GET", "/u/enums", [], returns=lst(r("Color"))),
     endpoint("oneQuery", "GET", "/u/one", [arg("pageLimit", opt(I), "query", "limit")], returns=I),
     endpoint("oneQueryRequired", "GET", "/u/onereq", [arg("theId", I, "query", "id")], returns=I),
     endpoint("aliasParams", "GET", "/u/aliases/{dt}/{dbl}", [
